@@ -1,5 +1,5 @@
 """C12 — no key ever encrypts two messages with the same nonce (provenance / once-per-unit clauses; DESIGN.md 4/C12)."""
-from ..mir import Callee, last_seg, loc, op_int, op_place
+from ..mir import tymatch, Callee, last_seg, loc, op_int, op_place
 from .common import gates_of_value
 
 EXPLANATION = (
@@ -171,10 +171,12 @@ def run(ctx):
                                    f"{what} is drawn from the CSPRNG in the per-session constructor" if ok else f"{what} does not derive from a CSPRNG call inside the constructor (constant, counter or value shared from outside the session)")
         ctx.floor("N1", f"constructions of {last_seg(sfx)}", 1, n)
     # UDP Session::from(Mode): both ids random on their arm
-    sf = [b for b in bodies if (b.impl_self_def or "").endswith("codec::shadowsocks::udp::Session") and b.impl_trait and last_seg(b.impl_trait) == "From" and b.method == "from"]
+    # role: the datagram session struct = the struct with a session id and a packet id
+    sess_structs = [it for it in prog.items if it["k"] == "struct" and {"client_session_id", "server_session_id", "packet_id"} <= {n for (n, _) in it["fields"]}]
+    sf = [b for b in bodies if b.impl_self_def in {it["path"] for it in sess_structs} and b.impl_trait and last_seg(b.impl_trait) == "From" and b.method == "from"]
     ctx.floor("N1", "UDP Session::from(Mode)", 1, len(sf))
     for b in sf:
-        it = prog.item("struct", "codec::shadowsocks::udp::Session")[0]
+        it = [x for x in sess_structs if x["path"] == b.impl_self_def][0]
         for blk in b.rpo():
             for s in b.stmts(blk):
                 if s["k"] == "assign" and s["rv"]["k"] == "agg" and s["rv"].get("def") == it["path"]:
@@ -186,10 +188,10 @@ def run(ctx):
     # call-argument sinks
     arg_sinks = [
         # (function predicate, callee predicate, arg indexes, what)
-        (lambda b: (b.impl_self_def or "").endswith("vmess::session::ClientSession") and b.method == "new", lambda c: c.method == "init", [0, 1, 2], "VMess request IV / key / response byte"),
+        (lambda b: tymatch((b.impl_self_def or ""), "vmess::session::ClientSession") and b.method == "new", lambda c: c.method == "init", [0, 1, 2], "VMess request IV / key / response byte"),
         (lambda b: b.defp.endswith("vmess::aead::auth_id::create"), lambda c: c.name == "BufMut::put_u32", [1], "auth-id random word"),
         (lambda b: b.defp.endswith("vmess::aead::encrypt::seal_header"), lambda c: c.method == "extend_from_slice", None, "header connection nonce"),
-        (lambda b: (b.impl_self_def or "").endswith("codec::shadowsocks::udp::AEADCipherCodec") and b.method == "encode", lambda c: c.method == "new_encoder", [2], "legacy datagram salt"),
+        (lambda b: tymatch((b.impl_self_def or ""), "codec::shadowsocks::udp::AEADCipherCodec") and b.method == "encode", lambda c: c.method == "new_encoder", [2], "legacy datagram salt"),
     ]
     for (fp, cp, idxs, what) in arg_sinks:
         fs = [b for b in bodies if b.root == b.defp and fp(b)]
@@ -215,7 +217,7 @@ def run(ctx):
                     ctx.ob("N1", b.defp, f"{what}:arg{i}:from-csprng", loc(t["sp"]), ok, f"{what} (argument {i} of {c.name}) derives from the CSPRNG" if ok else f"{what} (argument {i} of {c.name}) does not derive from the CSPRNG")
     # XChaCha datagram nonces: in the 2022 packet encoders a fill call dominated by `nonce_size > 0`
     for b in bodies:
-        if b.root == b.defp and (b.impl_self_def or "").endswith("codec::shadowsocks::udp::AEADCipherCodec") and b.method in ("encode_client_packet_aead_2022", "encode_server_packet_aead_2022"):
+        if b.root == b.defp and tymatch((b.impl_self_def or ""), "codec::shadowsocks::udp::AEADCipherCodec") and b.method in ("encode_client_packet_aead_2022", "encode_server_packet_aead_2022"):
             fb_ = prog.flat(b.defp)
             fills = [(blk, c, t) for (blk, c, t) in fb_.calls() if is_csprng_call(prog, c) and c.target.endswith("fill_bytes")]
             ctx.ob("N1", b.defp, "xchacha-nonce:from-csprng", loc(b.sp), len(fills) >= 1, "the datagram nonce prefix is filled from the CSPRNG" if fills else "the datagram nonce prefix is not filled from the CSPRNG")
@@ -253,7 +255,7 @@ def run(ctx):
                 ctx.ob("N2", b.defp, "step-dominates-call", loc(t["sp"]), ok, "generator step dominates the AEAD call")
     # who may call the primitives
     for b in bodies:
-        if b.defp in auth_paths or (b.impl_self_def or "").endswith("codec::aead::CipherMethod"):
+        if b.defp in auth_paths or tymatch((b.impl_self_def or ""), "codec::aead::CipherMethod"):
             continue
         for (blk, c, t) in b.calls():
             if is_prim(c):
